@@ -8,7 +8,7 @@ stdout: JSON {"results": [ [obs per tamper] per scenario ], "exchanges": n}
 scenario {"dir": "pub"|"call"|"yield"|"error", "ringA": ring, "ringB": ring, "uri", "uri2", "bad": bool,
           "error_uri": str (dir=error), "error_kind": "app"|"plain", "tampers": [tamper, ...]}
 ring     null | {"default": key|null, "prefix": [[prefix, key], ...]}      key = {"id": "X", "roles": "both"|"orig"|"resp"}
-tamper   ["none"] | ["garble", pos, mask] | ["trunc", n] | ["extend"] | ["swap", "sub"|"detail"]
+tamper   ["none"] | ["garble", pos, mask] | ["trunc", n] | ["extend"] | ["algo"] | ["ser"] | ["swap", "sub"|"detail"]
 
 observation (one exchange):
   {"sent": {"kind": ..., "sealed": bool, "clear_args": bool} | "raised:<cls>",
@@ -176,6 +176,12 @@ def main():
                 if t[0] in ("garble", "trunc", "extend"):
                     if m.payload is not None:
                         m.payload = alter(m.payload, t)
+                elif t[0] == "algo":
+                    if m.payload is not None:
+                        m.enc_algo = "mqtt"
+                elif t[0] == "ser":
+                    if m.payload is not None:
+                        m.enc_serializer = "cbor"
                 elif t[0] == "swap":
                     if sc["dir"] == "pub":
                         if t[1] == "sub":
